@@ -104,6 +104,14 @@ impl<T> Drop for Object<T> {
             if let Some(pool) = self.pool.upgrade() {
                 {
                     let mut queue = pool.queue.lock().unwrap();
+                    if pool.is_closed() {
+                        // A closed pool takes nothing back: a `get()` which
+                        // got its permit before the `close()` must not be
+                        // handed an object that was returned after it.
+                        let _ = pool.size.fetch_sub(1, Ordering::Relaxed);
+                        drop(queue);
+                        return;
+                    }
                     queue.push(obj);
                 }
                 #[cfg(deadpool_verif)]
